@@ -424,16 +424,26 @@ def _get_all_fields(
     Recursively get all fields from all inherited classes to figure out the
     total number of fields.
     """
-    fields = []
+    fields: Dict[str, ast.AnnAssign] = {}
 
-    for base in class_def.bases:
+    # A field redefined in a subclass (or provided by several bases) is still a
+    # single field of the model, so keep one definition per name: the class'
+    # own one first, then the one of the leftmost base, as Python resolves it.
+    for base in reversed(class_def.bases):
         if not isinstance(base, ast.Name) or base.id not in class_dict:
             continue
 
-        fields.extend(_get_all_fields(class_dict[base.id], class_dict))
+        for field in _get_all_fields(class_dict[base.id], class_dict):
+            fields[_field_key(field)] = field
 
     for field in class_def.body:
         if isinstance(field, ast.AnnAssign):
-            fields.append(field)
+            fields[_field_key(field)] = field
 
-    return fields
+    return list(fields.values())
+
+
+def _field_key(field: ast.AnnAssign) -> str:
+    if isinstance(field.target, ast.Name):
+        return field.target.id
+    return ast.dump(field.target)
